@@ -34,6 +34,9 @@ pub struct PuppetSpec {
     /// the terminal follows the last datum in the same call (a source that knows it is exhausted,
     /// like take's output) instead of waiting for the next Pull / driver step
     pub eager_end: bool,
+    /// PullSync only: number of script items sent in answer to one Pull (1, or 2 for a source
+    /// that answers every request with a small batch)
+    pub per_pull: usize,
 }
 
 #[derive(Debug)]
@@ -191,7 +194,11 @@ impl<T: Clone + Send + Sync + 'static> Puppet<T> {
                     match self.spec.mode {
                         Mode::Listen => {},
                         Mode::PullSync => {
-                            self.emit_next(sub);
+                            for _ in 0..self.spec.per_pull.max(1) {
+                                if !self.emit_next(sub) {
+                                    break;
+                                }
+                            }
                         },
                         Mode::PullDeferred => {
                             sub.st.lock().unwrap().demand += 1;
